@@ -152,3 +152,28 @@ Definition c18ib_ok (t:remote_test) (od:bool) (g:name_guard) (ops:list opdesc) (
     | ToFs r => negb retr && option_eqb bytes_eqb r obs
     end
   end.
+
+(* ---- the same through NESTED wrappers: the filesystem handed to loader.LoadSyslModule is itself a ChrootFs (root
+   lower0); ConfigureProject wraps it again at the project root (upper0). The reader's Open goes through both. ---- *)
+Definition b_nested_open (ops:list opdesc) (cwd lower0 upper0 name:bytes) : option bytes :=
+  match b_open ops cwd upper0 name with
+  | None => None
+  | Some p => b_open ops cwd lower0 p
+  end.
+Definition b_nested_read (g:name_guard) (ops:list opdesc) (cwd lower0 upper0 name:bytes) : read_result :=
+  let n := read_name g name in
+  if reader_is_remote n then ToRetriever else ToFs (b_nested_open ops cwd lower0 upper0 n).
+(* (cwd, lower root, upper root = the project root, module argument, Some import text | None, retriever asked?, the
+   path the innermost filesystem was asked to open) *)
+Definition c18in_case := (bytes * bytes * bytes * bytes * option bytes * bool * option bytes)%type.
+Definition c18in_ok (t:remote_test) (od:bool) (g:name_guard) (ops:list opdesc) (c:c18in_case) : bool :=
+  match c with (cwd, lower0, upper0, m, otext, retr, obs) =>
+    let name := match otext with
+                | None => module_name m
+                | Some tx => import_local_name_at t od (go_dir (module_name m)) tx
+                end in
+    match b_nested_read g ops cwd lower0 upper0 name with
+    | ToRetriever => retr && match obs with None => true | Some _ => false end
+    | ToFs r => negb retr && option_eqb bytes_eqb r obs
+    end
+  end.
